@@ -430,6 +430,18 @@ for c in cases:
         al = [mk(c["a"]), mk(c["b"])]
         MultimapResolver.select_noninformative(al, [0, 1])
         out.append([x.assignment_type.name for x in al])
+    elif k == "ref_gene":
+        from collections import defaultdict
+        from src.graph_based_model_construction import GraphBasedModelConstructor
+        m = object.__new__(GraphBasedModelConstructor)
+        genes = sorted(set(g for gs in c["introns"] for g in gs))
+        m.gene_info = SimpleNamespace(empty=lambda: False, gene_strands={g: ("-" if g in c["minus"] else "+") for g in genes})
+        m.intron_genes = defaultdict(set)
+        introns = [(100 * i, 100 * i + 50) for i in range(len(c["introns"]))]
+        for i, gs in zip(introns, c["introns"]):
+            if gs:
+                m.intron_genes[i] = set(gs)
+        out.append(m.select_reference_gene(introns, (0, 10 ** 6), c["strand"]))
     elif k == "groups":
         d = tempfile.mkdtemp()
         try:
@@ -458,7 +470,7 @@ def site_cases(rng, n):
     pool = ["Gc1_alpha", "Gc1_Bx", "Gc1_c9", "G2", "g10", "ENSG007", "A", "b", "Zeta", "k7", "m10", "m9", "NA", "liver"]
     cases = []
     for _ in range(n):
-        k = rng.choice(["gene_ids", "isoforms", "tie", "groups", "groups_header"])
+        k = rng.choice(["gene_ids", "isoforms", "tie", "groups", "groups_header", "ref_gene"])
         if k == "gene_ids":
             cases.append({"kind": k, "genes": rng.sample(pool, rng.randint(1, 4))})
         elif k == "isoforms":
@@ -469,6 +481,11 @@ def site_cases(rng, n):
             if sorted(a) == sorted(b):
                 b = b + ["zz"]
             cases.append({"kind": k, "a": a, "b": b})
+        elif k == "ref_gene":
+            gs = rng.sample(pool, rng.randint(2, 4))
+            # several genes own the same introns equally often (readthrough / merged annotation sources)
+            introns = [rng.sample(gs, rng.randint(0, len(gs))) if rng.random() < 0.4 else list(gs) for _ in range(rng.randint(1, 4))]
+            cases.append({"kind": k, "introns": introns, "minus": rng.sample(gs, rng.choice([0, 0, 1])), "strand": rng.choice("++.")})
         elif k == "groups":
             cases.append({"kind": k, "groups": rng.sample(pool, rng.randint(1, 5))})
         else:
@@ -493,6 +510,8 @@ def model_site_req(c):
         return vlib.req("C06.isoforms_key", iter=c["ids"])
     if k == "tie":
         return vlib.req("C06.isoforms_key", iter=c["a"])
+    if k == "ref_gene":
+        return vlib.req("C06.reference_gene", introns=c["introns"], minus=c["minus"], strand=c["strand"])
     if k == "groups":
         return vlib.req("C06.group_numbering", iter=c["groups"])
     return vlib.req("C06.groups_header", per_chr=c["per_chr"], reverse2=False)
@@ -829,6 +848,8 @@ def oracle(ctx, disagreements, broken):
     seeds = [0, 3, 5, 77] if quick else [0, 1, 2, 3, 4, 5, 6, 7, 77, 1000, 65537, 4294967295]
     # known order-sensitive shapes first (tie between {Tb} and {Ta,Tc}; three genes on one feature)
     fixed = [{"kind": "tie", "a": ["Tb"], "b": ["Ta", "Tc"]}, {"kind": "gene_ids", "genes": ["Gc1_alpha", "Gc1_Bx", "Gc1_c9"]},
+             {"kind": "ref_gene", "introns": [["Gc1_twinP", "Gc1_Qtwin"], ["Gc1_Qtwin", "Gc1_twinP"]], "minus": [], "strand": "+"},
+             {"kind": "ref_gene", "introns": [["ENSMUSG00000095547.1", "MERGEDG00000000001.1", "G3"]] * 2, "minus": [], "strand": "."},
              {"kind": "groups", "groups": ["Zeta", "k7", "liver", "m10", "m9"]}]
     oracle_sites(ctx, 30 if quick else 300, seeds, given=given_sites[:20] + fixed)
     oracle_loader(ctx, 200 if quick else 2000)
